@@ -115,45 +115,72 @@ theorem denotePats_nil (env r) : denotePats env r [] = [] := by rw [denotePats]
 theorem denotePats_cons (env r p ps) :
     denotePats env r (p :: ps) = denotePat env r p ++ denotePats env r ps := by rw [denotePats]
 
+theorem allDatesPat_date (long args spec) : allDatesPat (.date long args spec) = [(dateRequest args).1] := by
+  rw [allDatesPat]
+theorem allDatesPat_group (k long body spec) : allDatesPat (.group k long body spec) = allDatesPats body := by
+  rw [allDatesPat]
+theorem allDatesPats_cons (p : Pat) (ps : List Pat) : allDatesPats (p :: ps) = allDatesPat p ++ allDatesPats ps := by
+  rw [allDatesPats]
+
+theorem dateChunkOf_ok (B : Build) (args : Option (List Lit × Option Bool)) (spec : Option FormatSpec)
+    (h : B.dateOk (dateRequest args).1 = true) :
+    dateChunkOf B args spec = .leaf (.time (dateRequest args).1 (dateRequest args).2) (paramsOf spec) := by
+  simp [dateChunkOf, h]
+
+theorem opsChunk_error (env : Env) (r : Record) (e : List Char) :
+    opsChunk env r (.error e) = ofText (errorMarker e) := by rw [opsChunk]
+
+theorem styles_dateChunkOf (B : Build) (env : Env) (r : Record) (args spec) :
+    (opsChunk env r (dateChunkOf B args spec)).styles = [] := by
+  unfold dateChunkOf
+  split
+  · rw [opsChunk_error, styles_ofText]
+  · rw [opsChunk_leaf, styles_codeFmtOps, styles_ofText]
+
 mutual
-theorem text_chunkOf (bits : Nat) (env : Env) (r : Record) :
-    ∀ (p : Pat) (inArg : Bool), wfPat bits inArg p = true →
-      (opsChunk env r (chunkOf p)).text = denotePat env r p
-  | .lit l, _, _ => by rw [chunkOf_lit, opsChunk_text, denotePat_lit, ofText_text]
-  | .leaf k long spec, inArg, h => by
+theorem text_chunkOf (B : Build) (bits : Nat) (env : Env) (r : Record) :
+    ∀ (p : Pat) (inArg : Bool), wfPat bits inArg p = true → (∀ f ∈ allDatesPat p, B.dateOk f = true) →
+      (opsChunk env r (chunkOf B p)).text = denotePat env r p
+  | .lit l, _, _, _ => by rw [chunkOf_lit, opsChunk_text, denotePat_lit, ofText_text]
+  | .leaf k long spec, inArg, h, _ => by
     rw [wfPat_leaf] at h
-    simp only [Bool.and_eq_true] at h
-    rw [chunkOf_leaf, opsChunk_leaf, denotePat_leaf, text_codeFmt_spec spec _ h.2, ofText_text,
+    rw [chunkOf_leaf, opsChunk_leaf, denotePat_leaf, text_codeFmt_spec spec _ h, ofText_text,
       leafTextPure_leaf]
-  | .date long args spec, inArg, h => by
+  | .date long args spec, inArg, h, hD => by
     rw [wfPat_date] at h
     simp only [Bool.and_eq_true] at h
-    rw [chunkOf_date, opsChunk_leaf, denotePat_date, text_codeFmt_spec spec _ h.2, ofText_text]
+    rw [allDatesPat_date] at hD
+    rw [chunkOf_date, dateChunkOf_ok B args spec (hD _ List.mem_cons_self), opsChunk_leaf, denotePat_date,
+      text_codeFmt_spec spec _ h.2, ofText_text]
     rfl
-  | .mdc long key dflt spec, inArg, h => by
+  | .mdc long key dflt spec, inArg, h, _ => by
     rw [wfPat_mdc] at h
     simp only [Bool.and_eq_true] at h
     rw [chunkOf_mdc, opsChunk_leaf, denotePat_mdc, text_codeFmt_spec spec _ h.2, ofText_text,
       leafTextPure_mdc]
-  | .group k long body spec, inArg, h => by
+  | .group k long body spec, inArg, h, hD => by
     rw [wfPat_group] at h
     simp only [Bool.and_eq_true] at h
-    have ih := text_chunksOf bits env r body true h.1
+    rw [allDatesPat_group] at hD
+    have ih := text_chunksOf B bits env r body true h.1 hD
     rw [chunkOf_group, opsChunk_group, denotePat_group, text_codeFmt_spec spec _ h.2]
     cases k
     · simp only [ih]
     · simp only [text_wrapHighlight, ih]
     · by_cases hd : env.debugBuild = true <;> simp [hd, ih, text_nil]
     · by_cases hd : env.debugBuild = true <;> simp [hd, ih, text_nil]
-theorem text_chunksOf (bits : Nat) (env : Env) (r : Record) :
+theorem text_chunksOf (B : Build) (bits : Nat) (env : Env) (r : Record) :
     ∀ (ps : List Pat) (inArg : Bool), wfPats bits inArg ps = true →
-      (opsList env r (chunksOf ps)).text = denotePats env r ps
-  | [], _, _ => by rw [chunksOf_nil, opsList_nil, denotePats_nil]; rfl
-  | p :: ps, inArg, h => by
+      (∀ f ∈ allDatesPats ps, B.dateOk f = true) →
+      (opsList env r (chunksOf B ps)).text = denotePats env r ps
+  | [], _, _, _ => by rw [chunksOf_nil, opsList_nil, denotePats_nil]; rfl
+  | p :: ps, inArg, h, hD => by
     rw [wfPats_cons] at h
     simp only [Bool.and_eq_true] at h
-    rw [chunksOf_cons, opsList_cons, denotePats_cons, text_append, text_chunkOf bits env r p inArg h.1,
-      text_chunksOf bits env r ps inArg h.2]
+    rw [allDatesPats_cons] at hD
+    rw [chunksOf_cons, opsList_cons, denotePats_cons, text_append,
+      text_chunkOf B bits env r p inArg h.1 (fun f hf => hD f (List.mem_append_left _ hf)),
+      text_chunksOf B bits env r ps inArg h.2 (fun f hf => hD f (List.mem_append_right _ hf))]
 end
 
 theorem stylesPat_group (env : Env) (r : Record) (k long body spec) :
@@ -180,26 +207,26 @@ theorem stylesPats_cons (env r p ps) :
     stylesPats env r (p :: ps) = stylesPat env r p ++ stylesPats env r ps := by rw [stylesPats]
 
 mutual
-theorem styles_chunkOf (env : Env) (r : Record) :
-    ∀ (p : Pat), (opsChunk env r (chunkOf p)).styles = stylesPat env r p
+theorem styles_chunkOf (B : Build) (env : Env) (r : Record) :
+    ∀ (p : Pat), (opsChunk env r (chunkOf B p)).styles = stylesPat env r p
   | .lit l => by rw [chunkOf_lit, opsChunk_text, styles_ofText, stylesPat_lit]
   | .leaf k long spec => by rw [chunkOf_leaf, opsChunk_leaf, styles_codeFmtOps, styles_ofText, stylesPat_leaf]
-  | .date long args spec => by rw [chunkOf_date, opsChunk_leaf, styles_codeFmtOps, styles_ofText, stylesPat_date]
+  | .date long args spec => by rw [chunkOf_date, styles_dateChunkOf, stylesPat_date]
   | .mdc long key dflt spec => by rw [chunkOf_mdc, opsChunk_leaf, styles_codeFmtOps, styles_ofText, stylesPat_mdc]
   | .group k long body spec => by
-    have ih := styles_chunksOf env r body
+    have ih := styles_chunksOf B env r body
     rw [chunkOf_group, opsChunk_group, styles_codeFmtOps, stylesPat_group]
     cases k
     · simp only [ih]
     · simp only [styles_wrapHighlight, ih]
     · by_cases hd : env.debugBuild = true <;> simp [hd, ih, styles_nil]
     · by_cases hd : env.debugBuild = true <;> simp [hd, ih, styles_nil]
-theorem styles_chunksOf (env : Env) (r : Record) :
-    ∀ (ps : List Pat), (opsList env r (chunksOf ps)).styles = stylesPats env r ps
+theorem styles_chunksOf (B : Build) (env : Env) (r : Record) :
+    ∀ (ps : List Pat), (opsList env r (chunksOf B ps)).styles = stylesPats env r ps
   | [] => by rw [chunksOf_nil, opsList_nil, stylesPats_nil]; rfl
   | p :: ps => by
-    rw [chunksOf_cons, opsList_cons, stylesPats_cons, styles_append, styles_chunkOf env r p,
-      styles_chunksOf env r ps]
+    rw [chunksOf_cons, opsList_cons, stylesPats_cons, styles_append, styles_chunkOf B env r p,
+      styles_chunksOf B env r ps]
 end
 
 theorem datesPat_group (env : Env) (k long body spec) :
@@ -222,35 +249,43 @@ theorem datesPats_cons (env p ps) : datesPats env (p :: ps) = datesPat env p ++ 
   rw [datesPats]
 
 mutual
-theorem rendered_chunkOf (env : Env) : ∀ (p : Pat), renderedTimes env (chunkOf p) = datesPat env p
-  | .lit l => by rw [chunkOf_lit, renderedTimes, datesPat_lit]
-  | .leaf k long spec => by
+theorem rendered_chunkOf (B : Build) (env : Env) : ∀ (p : Pat), (∀ f ∈ allDatesPat p, B.dateOk f = true) →
+    renderedTimes env (chunkOf B p) = datesPat env p
+  | .lit l, _ => by rw [chunkOf_lit, renderedTimes, datesPat_lit]
+  | .leaf k long spec, _ => by
     rw [chunkOf_leaf, datesPat_leaf]
     cases k <;> simp only [LeafKind.leaf] <;> rw [renderedTimes] <;> (intros; contradiction)
-  | .date long args spec => by rw [chunkOf_date, renderedTimes, datesPat_date]
-  | .mdc long key dflt spec => by
+  | .date long args spec, hD => by
+    rw [allDatesPat_date] at hD
+    rw [chunkOf_date, dateChunkOf_ok B args spec (hD _ List.mem_cons_self), renderedTimes, datesPat_date]
+  | .mdc long key dflt spec, _ => by
     rw [chunkOf_mdc, datesPat_mdc, renderedTimes]
     intros; contradiction
-  | .group k long body spec => by
-    have ih := rendered_chunksOf env body
+  | .group k long body spec, hD => by
+    rw [allDatesPat_group] at hD
+    have ih := rendered_chunksOf B env body hD
     rw [chunkOf_group, datesPat_group, ← ih]
     cases k <;> rw [renderedTimes] <;> first | rfl | (intros; contradiction)
-theorem rendered_chunksOf (env : Env) : ∀ (ps : List Pat), renderedTimesL env (chunksOf ps) = datesPats env ps
-  | [] => by rw [chunksOf_nil, renderedTimesL, datesPats_nil]
-  | p :: ps => by
-    rw [chunksOf_cons, renderedTimesL, datesPats_cons, rendered_chunkOf env p, rendered_chunksOf env ps]
+theorem rendered_chunksOf (B : Build) (env : Env) : ∀ (ps : List Pat),
+    (∀ f ∈ allDatesPats ps, B.dateOk f = true) → renderedTimesL env (chunksOf B ps) = datesPats env ps
+  | [], _ => by rw [chunksOf_nil, renderedTimesL, datesPats_nil]
+  | p :: ps, hD => by
+    rw [allDatesPats_cons] at hD
+    rw [chunksOf_cons, renderedTimesL, datesPats_cons,
+      rendered_chunkOf B env p (fun f hf => hD f (List.mem_append_left _ hf)),
+      rendered_chunksOf B env ps (fun f hf => hD f (List.mem_append_right _ hf))]
 end
 
 mutual
-theorem chunkOf_unalias : ∀ (p : Pat), chunkOf (unalias p) = chunkOf p
+theorem chunkOf_unalias (B : Build) : ∀ (p : Pat), chunkOf B (unalias p) = chunkOf B p
   | .lit l => by rw [unalias]
   | .leaf k long spec => by rw [unalias, chunkOf_leaf, chunkOf_leaf]
   | .date long args spec => by rw [unalias, chunkOf_date, chunkOf_date]
   | .mdc long key dflt spec => by rw [unalias, chunkOf_mdc, chunkOf_mdc]
-  | .group k long body spec => by rw [unalias, chunkOf_group, chunkOf_group, chunksOf_unalias body]
-theorem chunksOf_unalias : ∀ (ps : List Pat), chunksOf (unaliasL ps) = chunksOf ps
+  | .group k long body spec => by rw [unalias, chunkOf_group, chunkOf_group, chunksOf_unalias B body]
+theorem chunksOf_unalias (B : Build) : ∀ (ps : List Pat), chunksOf B (unaliasL ps) = chunksOf B ps
   | [] => by rw [unaliasL]
-  | p :: ps => by rw [unaliasL, chunksOf_cons, chunksOf_cons, chunkOf_unalias p, chunksOf_unalias ps]
+  | p :: ps => by rw [unaliasL, chunksOf_cons, chunksOf_cons, chunkOf_unalias B p, chunksOf_unalias B ps]
 end
 
 mutual
@@ -259,9 +294,7 @@ theorem wfPat_unalias (bits : Nat) : ∀ (p : Pat) (inArg : Bool), wfPat bits in
   | .lit l, _, h => by rw [unalias]; exact h
   | .leaf k long spec, inArg, h => by
     rw [wfPat_leaf] at h
-    rw [unalias, wfPat_leaf]
-    simp only [Bool.and_eq_true] at h ⊢
-    exact ⟨by simp, h.2⟩
+    rw [unalias, wfPat_leaf]; exact h
   | .date long args spec, inArg, h => by
     rw [wfPat_date] at h
     rw [unalias, wfPat_date]; exact h
@@ -335,7 +368,7 @@ end
 
 /-- a concrete environment and record for witnesses -/
 def witnessEnv : Env :=
-  { strftimeOk := fun _ _ => true, dateText := fun _ _ => [], threadName := none,
+  { strftimeOk := fun _ => true, dateText := fun _ _ => [], threadName := none,
     threadId := 7, pid := 0, mdc := [], debugBuild := true }
 
 def witnessRecord : Record := { level := 3, message := [], target := [] }
